@@ -252,3 +252,93 @@ Proof.
   intros p H. change (l_pos ex_lat32) with [(1 # 8, 3 # 8); (5 # 8, 1 # 4); (7 # 8, 3 # 4)]%Q in H.
   destruct H as [<-|[<-|[<-|[]]]]; split; vm_compute; reflexivity.
 Qed.
+
+(* ---------- identical plaquettes and adjacency tables after the round trip ------------------- *)
+(* clause "has identical ... plaquettes and adjacency tables (positions to single precision)".
+   C09_roundtrip_values gives the restored lattice the SAME edges, crossings and vertex count and the float32
+   roundings as positions.  The theorems below are about the shared lattice model coq/Model/Lattice.v (C01/C02):
+   for ANY two embeddings L, L' of one graph (same edges, crossings, vertex count; positions and scale free), all
+   derived combinatorics coincide as soon as the geometric predicates the code branches on keep their verdicts:
+     (a) rot_agree:  the angular-sort comparator ang_lt on every ordered pair of edges leaving a common vertex
+         (_sorted_vertex_adjacent_edges), and
+     (b) the orientation filter of _find_all_plaquettes on every face walk of L — in three strengths:
+         wrap_agree (every wrap_count of consecutive edge vectors) => wind_agree (winding number) =>
+         valid_agree (the verdict "winding = -1").
+   preds_agree := rot_agree && wind_agree is a boolean FUNCTION (Proofs/PredicateStableDefs.v), extracted as driver
+   c09p and evaluated by harness/c09.py on (original, restored) of the generated lattices.
+   This supersedes the "NOT covered" note on plaquettes/adjacency tables in the header of this file, up to:
+   the bridge from Model/Pickle.v's rational positions to Model/Lattice.v's scaled integers is not a theorem (the
+   harness serialises both lattices exactly), and whether preds_agree HOLDS for a given lattice is a computation per
+   lattice (it fails for near-degenerate ones: C09_roundtrip_tables_needs_preds), not a theorem. *)
+From Koala Require Import Model.Lattice Proofs.PredicateStableDefs Proofs.PredicateStable Proofs.PredicateStableExamples.
+
+(* the stable insertion sort (np.argsort(-alpha)) depends on the keys only through the comparator's verdicts *)
+Theorem C09_sort_depends_on_verdicts_only : forall (key key' : nat -> vec) (l : list nat),
+  (forall x y, In x l -> In y l -> ang_lt (key y) (key x) = ang_lt (key' y) (key' x)) ->
+  sort_desc key l = sort_desc key' l.
+Proof. exact sort_desc_cmp. Qed.
+Print Assumptions C09_sort_depends_on_verdicts_only.
+
+(* (1) same comparator verdicts => same rotation system (vertices.adjacent_edges), same dart successor, same
+   traced walk from every directed edge (including Stuck / raised outcomes), same face walks in the same order *)
+Theorem C09_roundtrip_rotation_system : forall L L',
+  same_connectivity L L' -> rot_agree L L' = true ->
+  adj_table L = adj_table L' /\
+  (forall d, next_dart L (adj_table L) d = next_dart L' (adj_table L') d) /\
+  (forall se sd, trace L (adj_table L) se sd = trace L' (adj_table L') se sd) /\
+  option_map (map f_walk) (all_faces L) = option_map (map f_walk) (all_faces L').
+Proof. exact rotation_stable. Qed.
+Print Assumptions C09_roundtrip_rotation_system.
+
+(* (2) the clause itself.  tables L = (rotation system, face walks, plaquettes as (vertices, edges, directions) in
+   discovery order — None when the constructor raises —, edges.adjacent_plaquettes, vertices.adjacent_plaquettes,
+   plaquette neighbours, coordination numbers (both variants), edges.adjacent_edges, adjacency matrix).
+   No well-formedness hypothesis is needed. *)
+Theorem C09_roundtrip_tables : forall L L',
+  preds_agree L L' = true -> same_connectivity L L' -> tables L = tables L'.
+Proof. exact roundtrip_tables. Qed.
+Print Assumptions C09_roundtrip_tables.
+
+(* the same under the weakest hypothesis the argument needs (orientation VERDICT of each face walk unchanged), and
+   the chain of the three strengths *)
+Theorem C09_roundtrip_tables_weak : forall L L',
+  preds_agree_weak L L' = true -> same_connectivity L L' -> tables L = tables L'.
+Proof. exact roundtrip_tables_weak. Qed.
+Print Assumptions C09_roundtrip_tables_weak.
+
+Theorem C09_preds_agree_strengths : forall L L',
+  (preds_agree_fine L L' = true -> preds_agree L L' = true) /\
+  (preds_agree L L' = true -> preds_agree_weak L L' = true).
+Proof. exact (fun L L' => conj (preds_agree_fine_preds_agree L L') (preds_agree_preds_agree_weak L L')). Qed.
+Print Assumptions C09_preds_agree_strengths.
+
+(* the boolean connectivity test used by the driver implies the hypothesis *)
+Theorem C09_same_connectivity_b_sound : forall L L', same_connectivity_b L L' = true -> same_connectivity L L'.
+Proof. exact same_connectivity_b_spec. Qed.
+Print Assumptions C09_same_connectivity_b_sound.
+
+(* non-vacuous: koala's honeycomb_lattice(2) (8 vertices, 12 edges, 5 of them crossing the cell boundary, float64
+   positions that are not float32 numbers, scaled by 2^55) and its float32 rounding (is_round32_copy: positions of
+   hc2_f32 = Model/Pickle.v's round32 of those of hc2): every predicate agrees, and there are 4 plaquettes *)
+Example C09_roundtrip_tables_nonvacuous :
+  wf_lattice hc2 = true /\ same_connectivity_b hc2 hc2_f32 = true /\
+  is_round32_copy hc2 hc2_f32 = true /\ pos hc2 <> pos hc2_f32 /\
+  preds_agree_fine hc2 hc2_f32 = true /\ preds_agree hc2 hc2_f32 = true /\ preds_agree_weak hc2 hc2_f32 = true /\
+  option_map (map pproj) (find_all_plaquettes hc2) =
+    Some [([0; 1; 6; 5; 4; 7], [0; 7; 4; 3; 9; 11], [true; false; true; false; true; false]);
+          ([1; 0; 3; 4; 5; 2], [0; 8; 10; 3; 6; 1], [false; true; false; true; false; true]);
+          ([1; 2; 3; 0; 7; 6], [1; 2; 8; 11; 5; 7], [false; true; false; true; false; true]);
+          ([3; 2; 5; 6; 7; 4], [2; 6; 4; 5; 9; 10], [false; true; false; true; false; true])]%nat.
+Proof. exact hc2_preds_agree. Qed.
+
+(* the hypothesis is necessary: a thin triangle (third vertex 2^-31-close to the opposite side) whose float32
+   rounding — again exactly round32 of its positions — flips the orientation predicates: same connectivity, but the
+   rotation system, the plaquette (the reversed walk is kept) and hence the tables differ *)
+Example C09_roundtrip_tables_needs_preds :
+  wf_lattice thin = true /\ same_connectivity_b thin thin_f32 = true /\ is_round32_copy thin thin_f32 = true /\
+  rot_agree thin thin_f32 = false /\ valid_agree thin thin_f32 = false /\ preds_agree_weak thin thin_f32 = false /\
+  adj_table thin <> adj_table thin_f32 /\
+  option_map (map pproj) (find_all_plaquettes thin) = Some [([0; 1; 2], [0; 1; 2], [true; true; true])]%nat /\
+  option_map (map pproj) (find_all_plaquettes thin_f32) = Some [([1; 0; 2], [0; 2; 1], [false; false; false])]%nat /\
+  tables thin <> tables thin_f32.
+Proof. exact thin_needs_preds. Qed.
